@@ -31,6 +31,7 @@
 #include <stdarg.h>
 #include <dirent.h>
 #include "xraylib.h"
+#include "xrayglob.h"
 
 /* ---- allocation counter -------------------------------------------------------------------- */
 static long live_blocks = 0;
@@ -143,17 +144,18 @@ static void observe(void) {
   fflush(stdout);
 }
 
+/* the initial state of the model: the built-in table read directly (the harness is linked with the objects of the
+   library, so the private `Crystal_arr` is visible) - no API call is trusted here */
 static void dump_builtin(void) {
-  xrl_error *e = NULL; int n, i, j; char **l = Crystal_GetCrystalsList(NULL, &n, &e);
-  for (i = 0; i < n; i++) {
-    Crystal_Struct *c = Crystal_GetCrystal(l[i], NULL, &e);
+  int i, j;
+  for (i = 0; i < Crystal_arr.n_crystal; i++) {
+    const Crystal_Struct *c = &Crystal_arr.crystal[i];
     printf("builtin %s x%016llx x%016llx x%016llx x%016llx x%016llx x%016llx x%016llx %d", c->name, (unsigned long long)bits(c->a), (unsigned long long)bits(c->b),
       (unsigned long long)bits(c->c), (unsigned long long)bits(c->alpha), (unsigned long long)bits(c->beta), (unsigned long long)bits(c->gamma),
       (unsigned long long)bits(c->volume), c->n_atom);
     for (j = 0; j < c->n_atom; j++) printf(" %d x%016llx x%016llx x%016llx x%016llx", c->atom[j].Zatom, (unsigned long long)bits(c->atom[j].fraction),
       (unsigned long long)bits(c->atom[j].x), (unsigned long long)bits(c->atom[j].y), (unsigned long long)bits(c->atom[j].z));
     printf("\n");
-    Crystal_Free(c);
   }
 }
 
